@@ -10,7 +10,7 @@ PID = "C06"
 MODULE = "Check.C06"
 VERDICT = "verdict_C06"
 CLASS_BITS = {16: "K_invalid_hides_imports"}
-NCASES = (40, 1200)
+NCASES = (100, 1200)
 RULE = ("generator H (gen/histgen.py): a 5-file virtual workspace (two conftests, an imported helper module, two test "
         "modules) and 3-9 further full-text versions produced by structural edits (add/remove/rename/move fixtures, add "
         "tests incl. undeclared uses, break and repair syntax, re-send identical text, change a conftest's imports, empty "
